@@ -99,7 +99,7 @@ Print Assumptions C19_subclass_context_refuted.
    order given by C19_de_trace_partial / C19_de_post_once; the base's hooks are not run again around the dispatch. *)
 Theorem C19_disc_config_dispatch :
   forall E c t v kvs n,
-    c_disc (cls E c) = Some true -> lookup_tag E (subclasses E c) t = Some v -> c_disc (cls E v) = None ->
+    c_disc (cls E c) = Some true -> lookup_tag E (c_tagger (cls E c)) (subclasses E c) t = Some v -> c_disc (cls E v) = None ->
     unpack E (WDict (Some t) kvs) (TDc c) n = unpack E (WDict (Some t) kvs) (TDc v) n.
 Proof. exact disc_config_dispatch. Qed.
 Print Assumptions C19_disc_config_dispatch.
@@ -107,17 +107,25 @@ Print Assumptions C19_disc_config_dispatch.
 (* the same for Annotated[P, Discriminator(field, include_subtypes[, include_supertypes])] on a field *)
 Theorem C19_disc_annotated_dispatch :
   forall E p sup t v kvs n,
-    lookup_tag E (disc_variants E p sup) t = Some v -> c_disc (cls E v) = None ->
+    lookup_tag E false (disc_variants E p sup) t = Some v -> c_disc (cls E v) = None ->
     unpack E (WDict (Some t) kvs) (TDisc p true sup) n = unpack E (WDict (Some t) kvs) (TDc v) n.
 Proof. exact disc_annotated_dispatch. Qed.
 Print Assumptions C19_disc_annotated_dispatch.
+
+(* ... and for Annotated[Union[A, B, ...], Discriminator(field, include_subtypes?, include_supertypes?)] *)
+Theorem C19_disc_union_dispatch :
+  forall E cs sb sp t v kvs n,
+    lookup_tag E false (discu_variants E cs sb sp) t = Some v -> c_disc (cls E v) = None ->
+    unpack E (WDict (Some t) kvs) (TDiscU cs true sb sp) n = unpack E (WDict (Some t) kvs) (TDc v) n.
+Proof. exact disc_union_dispatch. Qed.
+Print Assumptions C19_disc_union_dispatch.
 
 (* missing or unknown tag: the call fails and no hook has run *)
 Theorem C19_disc_no_variant :
   forall E c kvs n,
     c_disc (cls E c) = Some true ->
     unpack E (WDict None kvs) (TDc c) n = (None, [], n) /\
-    (forall t, lookup_tag E (subclasses E c) t = None -> unpack E (WDict (Some t) kvs) (TDc c) n = (None, [], n)).
+    (forall t, lookup_tag E (c_tagger (cls E c)) (subclasses E c) t = None -> unpack E (WDict (Some t) kvs) (TDc c) n = (None, [], n)).
 Proof. exact disc_no_variant. Qed.
 Print Assumptions C19_disc_no_variant.
 
@@ -206,7 +214,7 @@ Definition E_ex5 : env :=
     mk_cinfo_h [Build_field 0 TInt false; Build_field 2 TInt false] false false true true false (Some 0) (Some 3) None;
     mk_cinfo [Build_field 3 (TDc 0) false; Build_field 4 (TList (TDisc 0 false false)) false] false false false false false ].
 Example C19_disc_nonvacuous :
-  subclasses E_ex5 0 = [1; 2; 3] /\ lookup_tag E_ex5 (subclasses E_ex5 0) 3 = Some 3 /\
+  subclasses E_ex5 0 = [1; 2; 3] /\ lookup_tag E_ex5 false (subclasses E_ex5 0) 3 = Some 3 /\
   (* through the base: only the variant S2's hooks, once *)
   unpack E_ex5 (WDict (Some 3) [(0, WInt); (2, WInt)]) (TDc 0) 0
   = (Some (VInst 3 0 0 [(0, VInt); (2, VInt)]), [PreDe 3; PostDe 3 0], 1) /\
@@ -228,11 +236,54 @@ Proof. repeat split; vm_compute; reflexivity. Qed.
    value.__mashumaro_to_dict__(dialect=dialect) raises TypeError, the second one passes the context: B's hooks get the
    token (with equal dialect options the first expression would have succeeded and lost it, cf. C19_union_context_refuted) *)
 Definition E_ex6 : env :=
-  [ Build_cinfo [Build_field 0 TInt false] true true false false false None None None (false, false, true);
-    Build_cinfo [Build_field 1 TInt false] true true false false true None None None (false, false, false);
-    Build_cinfo [Build_field 2 (TUnion [0; 1]) false] true true false false true None None None (false, false, true) ].
+  [ Build_cinfo [Build_field 0 TInt false] true true false false false None None None (false, false, true) false;
+    Build_cinfo [Build_field 1 TInt false] true true false false true None None None (false, false, false) false;
+    Build_cinfo [Build_field 2 (TUnion [0; 1]) false] true true false false true None None None (false, false, true) false ].
 Example C19_union_flags_nonvacuous :
   wt E_ex6 true (VInst 2 1 1 [(2, VInst 1 2 2 [(1, VInt)])]) (TDc 2) = true /\
   pack E_ex6 true Mixin (VInst 2 1 1 [(2, VInst 1 2 2 [(1, VInt)])]) (TDc 2) true (false, false, true) CTok
   = (true, [Pre 2 1 CTok; Pre 1 2 CTok; Post 1 2 CTok; Post 2 1 CTok]).
 Proof. split; vm_compute; reflexivity. Qed.
+
+(* nested class-level discriminators: Base (0, dispatches on the tag) <- Mid (1, tag 1, itself a dispatcher without a
+   field) <- Leaf (2, tag 2, one required field) and Leaf2 (3, tag 3).  The tag of Mid selects Mid, whose from_dict tries
+   Mid's subclasses in order; only the class finally constructed runs its hooks (here inherited from Base), once. *)
+Definition E_ex7 : env :=
+  [ mk_cinfo_h [Build_field 0 TInt false] false false true true false None None (Some true);
+    mk_cinfo_h [Build_field 0 TInt false] false false true true false (Some 0) (Some 1) (Some false);
+    mk_cinfo_h [Build_field 0 TInt false; Build_field 1 TInt false] false false true true false (Some 1) (Some 2) None;
+    mk_cinfo_h [Build_field 0 TInt false] false false true true false (Some 1) (Some 3) None ].
+Example C19_disc_nested_nonvacuous :
+  unpack E_ex7 (WDict (Some 1) [(0, WInt)]) (TDc 0) 0
+  = (Some (VInst 3 0 0 [(0, VInt)]), [PreDe 2; PreDe 3; PostDe 3 0], 1) /\
+  unpack E_ex7 (WDict (Some 2) [(0, WInt); (1, WInt)]) (TDc 0) 0
+  = (Some (VInst 2 0 0 [(0, VInt); (1, VInt)]), [PreDe 2; PostDe 2 0], 1) /\
+  post_events_of E_ex7 (VInst 3 0 0 [(0, VInt)]) [PreDe 2; PreDe 3; PostDe 3 0] = [PostDe 3 0].
+Proof. repeat split; vm_compute; reflexivity. Qed.
+
+(* variant_tagger_fn: Base (0, class-level discriminator with a tagger) <- S (1, binds no discriminator attribute).
+   With the tagger every variant is registered under its own name, without it S could not be selected at all. *)
+Definition E_ex8 (tagger: bool) : env :=
+  [ Build_cinfo [Build_field 0 TInt false] false false true true false None None (Some true) xf_none tagger;
+    mk_cinfo_h [Build_field 0 TInt false] false false true true false (Some 0) None None ].
+Example C19_tagger_nonvacuous :
+  unpack (E_ex8 true) (WDict (Some 1) [(0, WInt)]) (TDc 0) 0 = (Some (VInst 1 0 0 [(0, VInt)]), [PreDe 1; PostDe 1 0], 1) /\
+  unpack (E_ex8 false) (WDict (Some 1) [(0, WInt)]) (TDc 0) 0 = (None, [], 0).
+Proof. split; vm_compute; reflexivity. Qed.
+
+(* a discriminated Union: Annotated[Union[Leaf(0), Base(1)], Discriminator("kind", include_subtypes, include_supertypes)],
+   Base <- S (2, tag 2); Leaf has tag 0.  Variants = subclasses of the members, then the members themselves. *)
+Definition E_ex9 : env :=
+  [ mk_cinfo_h [Build_field 0 TInt false] false false true true false None (Some 0) None;
+    mk_cinfo_h [Build_field 1 TInt false] false false true true false None None None;
+    mk_cinfo_h [Build_field 1 TInt false; Build_field 2 TInt false] false false true true false (Some 1) (Some 2) None ].
+Example C19_disc_union_nonvacuous :
+  discu_variants E_ex9 [0; 1] true true = [2; 0; 1] /\
+  unpack E_ex9 (WDict (Some 2) [(1, WInt); (2, WInt)]) (TDiscU [0; 1] true true true) 0
+  = (Some (VInst 2 0 0 [(1, VInt); (2, VInt)]), [PreDe 2; PostDe 2 0], 1) /\
+  unpack E_ex9 (WDict (Some 0) [(0, WInt)]) (TDiscU [0; 1] true true true) 5
+  = (Some (VInst 0 5 5 [(0, VInt)]), [PreDe 0; PostDe 0 5], 6) /\
+  (* without a field every variant is tried: S rejects (f2 missing) after its pre hook, Leaf rejects, Base accepts *)
+  unpack E_ex9 (WDict None [(1, WInt)]) (TDiscU [0; 1] false true true) 0
+  = (Some (VInst 1 0 0 [(1, VInt)]), [PreDe 2; PreDe 0; PreDe 1; PostDe 1 0], 1).
+Proof. repeat split; vm_compute; reflexivity. Qed.
